@@ -69,6 +69,11 @@ type Case struct {
 	// Notify: the persistence error handler publishes a Notice event on the
 	// same bus for every failure it is told about (a dead-letter notification).
 	Notify bool `json:"notify,omitempty"`
+	// ReplaySub: one more handler of the plain event type is subscribed
+	// through SubscribeWithReplay (empty log: a live subscription that also
+	// records its position).  A failed persistence does not keep an event
+	// from any of its handlers.
+	ReplaySub bool `json:"replay_sub,omitempty"`
 }
 
 // Notice is what a notifying error handler publishes.
@@ -276,6 +281,18 @@ func run(c *Case) *vkit.Outcome {
 		eventbus.Subscribe(bus, func(e Dyn) { handle(hi, e.ID) }, so...)
 	}
 
+	rsDelivered := map[int]int{}
+	if c.ReplaySub {
+		if err := eventbus.SubscribeWithReplay(context.Background(), bus, "c13-sub", func(e Good) {
+			mu.Lock()
+			rsDelivered[e.ID]++
+			mu.Unlock()
+		}); err != nil {
+			o.Failf("", "SubscribeWithReplay on the empty log failed: %v", err)
+			return o
+		}
+	}
+
 	type exp struct {
 		kind    string
 		failed  bool
@@ -411,6 +428,10 @@ func run(c *Case) *vkit.Outcome {
 	for id, e := range expect {
 		if delivered[id] != c.Handlers {
 			o.Failf("", "%s: event %d (%s) was delivered to %d of %d handlers", desc, id, e.kind, delivered[id], c.Handlers)
+			return o
+		}
+		if c.ReplaySub && e.typ == reflect.TypeOf(Good{}) && rsDelivered[id] != 1 {
+			o.Failf("", "%s: event %d (%s) was delivered %d times to the handler subscribed through SubscribeWithReplay (a failed persistence must not keep an event from its handlers)", desc, id, e.kind, rsDelivered[id])
 			return o
 		}
 		// record visible from inside the handler iff persisted
